@@ -28,7 +28,7 @@ from __future__ import annotations
 
 import ast
 
-from ..astutil import attr_chain, callee_name, calls, handler_types, is_self_attr, text, is_name
+from ..astutil import call_recv, attr_chain, callee_name, calls, handler_types, is_self_attr, text, is_name
 from ..core import Result
 from ..engines import hnd
 from ..model import AnchorMissing, Repo, walk_no_nested
@@ -215,7 +215,7 @@ def run(repo: Repo) -> Result:
                 res.ob(f"{g.qual}:{text(c)[:60]}")
                 if not protected(g.node, c):
                     res.add("C03-ROUTE", g.qual, "get_node:unwrapped", f"{g.qual}: `{text(c)[:80]}` is not (and none of its callers is) inside a try/except LiquidError that routes to env.error — in lax mode the error would escape", g.file, c.lineno)
-            if callee_name(c) == "parse" and isinstance(c.func, ast.Attribute) and not is_self_attr(c.func) and text(c.func.value) not in ("self", "parser") and ("tags" in text(c.func.value) or "tag" == text(c.func.value)):
+            if callee_name(c) == "parse" and isinstance(c.func, ast.Attribute) and not is_self_attr(c.func) and text(call_recv(c)) not in ("self", "parser") and ("tags" in text(call_recv(c)) or "tag" == text(call_recv(c))):
                 res.ob(f"{g.qual}:direct-parse")
                 res.add("C03-ROUTE", g.qual, "direct-parse", f"{g.qual} calls `{text(c)[:60]}` directly instead of get_node", g.file, c.lineno)
     if n_dispatch < 2:
